@@ -81,6 +81,7 @@ class CoreRun:
         self.tlc_timeout = tlc_timeout
         self.chunk = chunk
         self.workers = workers
+        self.budget_cases = int(os.environ.get("VERIF_BUDGET_CASES", "80"))
         self.states = 0
         self.transitions = 0
         self.tlc_wall = 0.0
@@ -115,12 +116,19 @@ class CoreRun:
         case['expected'] (the spec's observables) for mismatches."""
         byid = {c["id"]: c for c in cases}
         d = out_dir(self.pid)
-        # a run that exhausted the instruction budget cannot be judged: the spec would only burn its fuel
+        # a run that exhausted the instruction budget: the spec decides whether the program ends (then the machine's
+        # endless run is a disagreement) or burns its fuel too (then nothing is judged).  Stepping the spec to its fuel
+        # limit is slow, so only a bounded number of such runs is handed to TLC; the others are skipped and counted.
         todo = []
+        nbudget = 0
         for c in cases:
             if c["obs"]["status"] == "budget":
-                c["verdict"] = "skip"
-                c["skipwhy"] = "budget"
+                nbudget += 1
+                if nbudget <= self.budget_cases:
+                    todo.append(c)
+                else:
+                    c["verdict"] = "skip"
+                    c["skipwhy"] = "budget"
             else:
                 todo.append(c)
         for start in range(0, len(todo), self.chunk):
